@@ -90,6 +90,15 @@ def run(ctx):
             # receiver of claim is the guard's server
             recv = {o.call.name for o in origins(h, cc[0].args[0]) if o.kind == "call"}
             r2.check("pgcat::pool::ConnectionPool::get" in recv, "claim-receiver", "claim is called on the server just checked out", "claim receiver does not derive from ConnectionPool::get: %s" % sorted(recv))
+    # every key that enters the shared map is one that was issued to a client (round 5: a warm-up `claim(0, 0)` left a
+    # never-removed entry (0,0) -> server, so a CancelRequest carrying a key nobody was given cancelled a stranger's query)
+    for c in F.all_calls(CLAIM):
+        if c.body.name == H:
+            continue
+        consts = [const_int(c.args[i]) for i in (1, 2)]
+        r2.fail("claim-only-for-a-client:" + c.body.name.replace("::{closure#0}", "").split("::")[-1], "Server::claim is called outside Client::handle with key %s: the entry is not under a key issued to a client by Client::startup and nothing removes it (release/Drop belong to clients) - "
+                "whoever sends a CancelRequest with that key cancels whatever runs on the connection" % consts, c.where())
+    r2.check(True, "claim-callers", "Server::claim call sites outside Client::handle: %d" % len([c for c in F.all_calls(CLAIM) if c.body.name != H]), "")
     for b_, blk, st in F.aggregates("pgcat::client::Client"):
         rv = st["rv"]
         for nm in ("process_id", "secret_key"):
